@@ -588,6 +588,12 @@ func w3Gen(r *rand.Rand, prop, tier string) *simrt.Case {
 		c.Program = append(c.Program, simrt.Op{Actor: 60, Kind: "sleep", A: int64(r.IntN(300))}, simrt.Op{Actor: 60, Kind: "start-routers"})
 		c.Program = append(c.Program, simrt.Op{Actor: 100, Kind: "check-routes"})
 		faults("etcd.watch.close", "etcd.slow", "etcd.unavail")
+		if r.IntN(4) == 0 {
+			// a router's watch or reload goroutine gets its lock late
+			for k := 0; k < 1+r.IntN(2); k++ {
+				c.Faults = append(c.Faults, simrt.Fault{Kind: "sched.stall", Op: "sched.lock", Key: "Router", Nth: r.IntN(40), Count: 1, Arg: int64(10+r.IntN(3000)) * 1e6})
+			}
+		}
 	case "C21":
 		for a := 0; a < nn; a++ {
 			for i := 0; i < nops; i++ {
@@ -605,6 +611,12 @@ func w3Gen(r *rand.Rand, prop, tier string) *simrt.Case {
 		}
 		c.Program = append(c.Program, simrt.Op{Actor: 100, Kind: "check-topics"})
 		faults("etcd.watch.close", "etcd.slow")
+		if r.IntN(4) == 0 {
+			// a store's watcher or updater goroutine gets its lock late
+			for k := 0; k < 1+r.IntN(2); k++ {
+				c.Faults = append(c.Faults, simrt.Fault{Kind: "sched.stall", Op: "sched.lock", Key: "EtcdStore", Nth: r.IntN(60), Count: 1, Arg: int64(10+r.IntN(3000)) * 1e6})
+			}
+		}
 	default: // C18
 		for a := 0; a < nn; a++ {
 			for i := 0; i < nops; i++ {
